@@ -767,6 +767,62 @@ done:
 	return out;
 }
 
+// the same blocking calls on a long-lived context: after 256 requests the request ids are no longer the context's shared
+// small-integer objects. The warm-up is not part of the swept operation (no fault is injected in it, its allocations are not counted).
+static void warm_unswept(Env &e) {
+	uint64_t c0 = A.count; bool was = A.armed;
+	A.armed = false;
+	size_t s0 = e.bw.served.size();
+	e.bw.warm_up(e.ctx, 256);
+	if (e.bw.served.size() > s0) e.bw.served.resize(s0);
+	A.count = c0; A.armed = was;
+}
+static std::string sign_after_warm_up(Env &e) { warm_unswept(e); return sign_once(e); }
+static std::string extend_after_warm_up(Env &e) { warm_unswept(e); return extend_once(e); }
+
+// C11 under allocation failure: a verification that fails half way (out of memory) changes neither the serialization nor the
+// verdict of a later verification of the same object. The signature has a metadata link and is parsed without verification, so
+// the first verification is the one that expands the link's record.
+static std::string op_verify_twice_unexpanded(Env &e) {
+	std::string out; int res; KSI_Signature *s = nullptr; KSI_DataHash *doc = nullptr;
+	static std::string bytes, docimp;
+	if (bytes.empty()) {
+		for (uint64_t ss = 1; ss < 400 && bytes.empty(); ss++) {
+			World w2 = e.bw.world; ReplyMeta m;
+			std::string d = imprint(1, "metadata-link-doc-" + std::to_string(ss));
+			std::string b = w2.make_signature(d, 0, 9000 + ss, true, m, 2);
+			SigView v; if (!parse_signature(b, v)) continue;
+			bool md = false;
+			for (auto &c : v.agg) for (auto &l : c.links) if (l.kind == 2) md = true;
+			if (md) { bytes = b; docimp = d; }
+		}
+		if (bytes.empty()) return "HARNESS";
+	}
+	CK(KSI_Signature_parseWithPolicy(e.ctx, (unsigned char *)bytes.data(), bytes.size(), KSI_VERIFICATION_POLICY_EMPTY, NULL, &s), "parse");
+	doc = sdk::hash_from_imprint(e.ctx, docimp);
+	if (!doc) { out = E(KSI_OUT_OF_MEMORY, "hash"); goto done; }
+	{
+		int v1 = KSI_Signature_verifyWithPolicy(s, doc, 0, KSI_VERIFICATION_POLICY_INTERNAL, NULL);
+		uint64_t f0 = A.fired;
+		int v2 = KSI_Signature_verifyWithPolicy(s, doc, 0, KSI_VERIFICATION_POLICY_INTERNAL, NULL);
+		bool fault_in_v2 = A.fired > f0;
+		uint64_t f1 = A.fired;
+		std::string ser = sdk::serialize(s);
+		bool fault_in_ser = A.fired > f1;
+		char b[96];
+		if (!fault_in_ser && ser != bytes) out = "CHANGED:serialization-after-verification";
+		else if (v2 != KSI_OK && !fault_in_v2) { snprintf(b, sizeof b, "CHANGED:later-verdict-0x%x-after-first-0x%x", v2, v1); out = b; }
+		else if (v1 != KSI_OK) out = E(v1, "verify1");
+		else if (v2 != KSI_OK) out = E(v2, "verify2");
+		else if (fault_in_ser) out = E(KSI_OUT_OF_MEMORY, "serialize");
+		else out = "OK:twice";
+	}
+done:
+	KSI_DataHash_free(doc);
+	KSI_Signature_free(s);
+	return out;
+}
+
 struct Case { const char *name; std::function<std::string(Env &)> op; };
 
 static std::vector<Case> &catalogue() {
@@ -804,6 +860,9 @@ static std::vector<Case> &catalogue() {
 		{"verify_key_based_authentication_record", op_verify_key_based},
 		{"receive_aggregator_and_extender_config", op_receive_configs},
 		{"publication_data_base32_roundtrip", op_pub_base32},
+		{"sign_blocking_on_long_lived_context", sign_after_warm_up},
+		{"extend_blocking_on_long_lived_context", extend_after_warm_up},
+		{"verify_twice_unexpanded_metadata_link", op_verify_twice_unexpanded},
 	};
 	return c;
 }
